@@ -52,7 +52,7 @@ prop("C15", [_lazy("state", "rule_tls1"), _lazy("state", "rule_glob1"), _lazy("s
      "themselves are not explored")
 
 prop("C17", [_lazy("cli_fail", "rule_atom"), _lazy("cli_fail", "rule_exc1"), _lazy("cli_fail", "rule_exit1"),
-             _lazy("cli_fail", "rule_out1"), _lazy("cli_fail", "rule_load1")],
+             _lazy("cli_fail", "rule_out1"), _lazy("cli_fail", "rule_load1"), _lazy("cli_fail", "rule_enc1")],
      "Static decision of: every file-mutating call reachable from main is classified, and each write-capable one "
      "is a `with` block whose body only writes locals defined before the open, with no call that can fail "
      "reachable afterwards in that function or, after it returns, in its callers up to main (ATOM-1/2, CFG "
@@ -125,3 +125,18 @@ prop("C19", [_lazy("header", "rule_inj4"), _lazy("header", "rule_shape")],
      "the stored value only str.strip() is applied (SHAPE-3).",
      "that every argv yields a valid module is argued from the escaper reasoning, not by parsing outputs; "
      "non-UTF-8 argv bytes (surrogates) are outside the analysis")
+
+prop("C16", [_lazy("cli_flow", "rule_optflow1"), _lazy("cli_flow", "rule_optflow2"), _lazy("cli_flow", "rule_optflow3"),
+             _lazy("cli_flow", "rule_optflow4"), _lazy("cli_flow", "rule_stage_same"), _lazy("cli_flow", "rule_seq1"),
+             _lazy("cli_fail", "rule_enc1")],
+     "Static decision of: every add_argument destination is read from the namespace and nothing else is "
+     "(OPTFLOW-1); each option's value flows (forward taint through Cli's methods, attribute cells, dict keys, "
+     "called callables) to its documented library parameter, not into another option's slot, and no hop of that "
+     "flow is control-dependent on a different option (OPTFLOW-2/5); every accepted choice has a handler and the "
+     "tables are indexed only after validation (OPTFLOW-3); converters attached by convert_args are total on the "
+     "static type of what reaches them (OPTFLOW-4); run() executes generate -> process_meta_data -> merge_models "
+     "-> generate_names -> layout -> generate_code once each, in dominance order, and writes the very local it "
+     "would return (STAGE-1, SAME-1); samples are concatenated in argument order, every loop iteration reaches the "
+     "accumulation, no order-changing operation is applied (SEQ-1).",
+     "dict_lookup / iter_json_file semantics on data; equality of CLI text and library text on concrete inputs; "
+     "the relative order of -m and the deprecated -l samples (argparse separates them)")
